@@ -189,18 +189,32 @@ pub fn minimise(
     v: &Violation,
     budget: usize,
 ) -> (Cfg, Vec<Step>, Violation, usize) {
-    let mut cfg = cfg.clone();
-    let mut best: Vec<Step> = plan[..(v.step + 1).min(plan.len())].to_vec();
-    let mut best_v = v.clone();
-    let mut tries = 0;
-    let test = |cfg: &Cfg, cand: &[Step], tries: &mut usize| -> Option<Violation> {
-        *tries += 1;
+    let mut in_process = |cfg: &Cfg, cand: &[Step]| -> Option<Violation> {
         let (vd, _) = judge_plan(prop, cfg, replicas, cand);
         if same(v, &vd.violation) {
             vd.violation
         } else {
             None
         }
+    };
+    minimise_with(cfg, plan, v, budget, &mut in_process)
+}
+
+/// The same, with the test supplied by the caller (e.g. one fresh process per candidate).
+pub fn minimise_with(
+    cfg: &Cfg,
+    plan: &[Step],
+    v: &Violation,
+    budget: usize,
+    judge: &mut dyn FnMut(&Cfg, &[Step]) -> Option<Violation>,
+) -> (Cfg, Vec<Step>, Violation, usize) {
+    let mut cfg = cfg.clone();
+    let mut best: Vec<Step> = plan[..(v.step + 1).min(plan.len())].to_vec();
+    let mut best_v = v.clone();
+    let mut tries = 0;
+    let mut test = |cfg: &Cfg, cand: &[Step], tries: &mut usize| -> Option<Violation> {
+        *tries += 1;
+        judge(cfg, cand)
     };
     // the truncated plan must still fail; otherwise keep the full one
     match test(&cfg, &best, &mut tries) {
@@ -249,8 +263,8 @@ pub fn minimise(
                 let short = if d.len() > 9 { 9 } else if d.len() > 8 { 8 } else { 1 };
                 vec![Step::Put { i: *inst, v: *v, d: d[..short].to_vec() }]
             }
-            Step::Slice { src, v, pred, seeds } if seeds.len() > 2 => {
-                vec![Step::Slice { src: *src, v: *v, pred: *pred, seeds: seeds[..2].to_vec() }]
+            Step::Slice { src, v, pred, seeds, keep } if seeds.len() > 2 => {
+                vec![Step::Slice { src: *src, v: *v, pred: *pred, seeds: seeds[..2].to_vec(), keep: *keep }]
             }
             _ => vec![],
         };
